@@ -1133,18 +1133,20 @@ theorem parseObj_fmtT (root : String) (steps : List (Step L)) (hv : validT steps
 
 /-! ### Paths: grouping into parts and `Path.__init__` -/
 
+/-- a group of steps, each step paired with `f` of it -/
+def liftG {α β} (f : α → β) : List α ⊕ α → List β ⊕ β
+  | .inl l => .inl (l.map f)
+  | .inr x => .inr (f x)
+
 theorem groupSteps_map {α β} (p : α → Bool) (f : α → β) (q : β → Bool) (hq : ∀ a, q (f a) = p a) :
-    ∀ (xs : List α), groupSteps q (xs.map f) =
-      (groupSteps p xs).map (fun g => match g with
-        | .inl l => .inl (l.map f)
-        | .inr x => .inr (f x)) := by
+    ∀ (xs : List α), groupSteps q (xs.map f) = (groupSteps p xs).map (liftG f) := by
   intro xs
   induction xs with
   | nil => rfl
   | cons x r ih =>
     simp only [List.map_cons, groupSteps, hq]
     split
-    · simp [ih]
+    · simp [ih, liftG]
     · rw [ih]
       cases groupSteps p r with
       | nil => rfl
@@ -1278,6 +1280,308 @@ theorem pathInit_ok (parts : List (Part L)) (hp : ∀ x ∈ parts, partOk x = tr
       simp only [pathInit]
       have := pathInit_fold (.path r s :: others) hp []
       simpa using this
+
+/-- the text of one part of `Path(…)` -/
+def pieceToks (F : FmtFacts) : List (Step L) ⊕ Step L → List (Tok L)
+  | .inl g => .root "T" :: g.flatMap (fmtStep F)
+  | .inr s => fmtStep F s
+
+theorem groupToks_liftG (F : FmtFacts) (g : List (Step L) ⊕ Step L) :
+    groupToks (liftG (fun s => (s, fmtStep F s)) g) = pieceToks F g := by
+  cases g <;> simp [groupToks, liftG, pieceToks, List.flatMap_map]
+
+theorem assemblePath_eq (F : FmtFacts) (steps : List (Step L)) :
+    assemblePath (fmtSteps F steps) =
+      match groupSteps Step.isSeg steps with
+      | [.inl g] => .root "T" :: g.flatMap (fmtStep F)
+      | gs => [.name "Path", .par (joinSep .comma (gs.map (pieceToks F)))] := by
+  unfold assemblePath fmtSteps
+  rw [groupSteps_map Step.isSeg (fun s => (s, fmtStep F s)) (fun x => x.1.isSeg) (fun _ => rfl)]
+  have hmm : ∀ (gs : List (List (Step L) ⊕ Step L)),
+      (gs.map (liftG (fun s => (s, fmtStep F s)))).map groupToks = gs.map (pieceToks F) := by
+    intro gs
+    rw [List.map_map]
+    apply List.map_congr_left
+    intro g _
+    exact groupToks_liftG F g
+  match h : groupSteps Step.isSeg steps with
+  | [] => simp [joinSep]
+  | [.inl g] => simp [liftG, List.flatMap_map]
+  | [.inr x] => simp [liftG, groupToks, pieceToks, joinSep]
+  | a :: b :: r =>
+    have := hmm (a :: b :: r)
+    cases a <;> (simp only [List.map_cons, liftG] at this ⊢; rw [this])
+
+theorem validP_iff (steps : List (Step L)) :
+    validP steps = true ↔ ∀ s ∈ steps, validStep s = true := by
+  simp [validP, List.all_eq_true]
+
+theorem mem_group_mem {α} (p : α → Bool) (xs : List α) (g : List α ⊕ α)
+    (hg : g ∈ groupSteps p xs) : ∀ x ∈ unGroup g, x ∈ xs := by
+  intro x hx
+  rw [← groupSteps_flatten p xs]
+  simp only [List.mem_flatMap]
+  exact ⟨g, hg, hx⟩
+
+theorem pieceToks_plain (g : List (Step L) ⊕ Step L) : ∀ t ∈ pieceToks F1 g, t.isPlain = true := by
+  cases g with
+  | inl l =>
+    intro t ht
+    simp only [pieceToks, List.mem_cons, List.mem_flatMap] at ht
+    rcases ht with rfl | ⟨s, _, hts⟩
+    · rfl
+    · exact fmtStep_plain F1 s t hts
+  | inr s => exact fmtStep_plain F1 s
+
+theorem fmtStep_ne_nil (F : FmtFacts) (s : Step L) : fmtStep F s ≠ [] := by
+  cases s <;> rw [fmtStep] <;> (try split) <;> simp
+
+theorem pieceToks_ne_nil (g : List (Step L) ⊕ Step L) : pieceToks F1 g ≠ [] := by
+  cases g with
+  | inl l => simp [pieceToks]
+  | inr s => exact fmtStep_ne_nil F1 s
+
+/-- the part a group is read back as -/
+def partOfGroup : List (Step L) ⊕ Step L → Part L
+  | .inl g => .texpr "T" (normSteps g)
+  | .inr (.seg v) => .plain v
+  | .inr s => .texpr "T" [normStep s]      -- not produced by `groupSteps Step.isSeg`
+
+theorem partOfGroup_ok (g : List (Step L) ⊕ Step L) : partOk (partOfGroup g) = true := by
+  cases g with
+  | inl l => rfl
+  | inr s => cases s <;> rfl
+
+theorem partOfGroup_steps (g : List (Step L) ⊕ Step L) :
+    partSteps (partOfGroup g) = normSteps (unGroup g) := by
+  cases g with
+  | inl l => rfl
+  | inr s => cases s <;> simp [partOfGroup, partSteps, unGroup, normSteps, normStep]
+
+/-- the text `Path(part, …)` for at least one part is read back part by part -/
+theorem parseObj_path (gs : List (List (Step L) ⊕ Step L)) (hne : gs ≠ [])
+    (hpiece : ∀ g ∈ gs, parsePart (pieceToks F1 g) = some (partOfGroup g)) :
+    parseObj [.name "Path", .par (joinSep .comma (gs.map (pieceToks F1)))] =
+      some (.pobj "T" (gs.flatMap (fun g => normSteps (unGroup g)))) := by
+  have hpne : gs.map (pieceToks F1) ≠ [] := by simpa using hne
+  have hpieces_ne : ∀ x ∈ gs.map (pieceToks F1), x ≠ [] := by
+    intro x hx; simp only [List.mem_map] at hx; obtain ⟨g, _, rfl⟩ := hx; exact pieceToks_ne_nil g
+  have hpieces_nc : ∀ x ∈ gs.map (pieceToks F1), ∀ t ∈ x, Tok.isComma t = false := by
+    intro x hx t ht; simp only [List.mem_map] at hx; obtain ⟨g, _, rfl⟩ := hx
+    exact plain_not_comma (pieceToks_plain g t ht)
+  have hjne : (joinSep Tok.comma (gs.map (pieceToks F1))).isEmpty = false := by
+    simp only [List.isEmpty_eq_false_iff]
+    exact joinSep_ne_nil _ _ hpne hpieces_ne
+  rw [parseObj]
+  simp only [hjne, Bool.false_eq_true, if_false]
+  rw [splitOn_joinSep _ _ rfl _ hpne hpieces_nc,
+    dropTrailingEmpty_of_last_ne _ (fun y hy => hpieces_ne y (List.mem_of_getLast? hy)),
+    List.map_map, allSome_map_some (parsePart ∘ pieceToks F1) partOfGroup gs hpiece]
+  simp only [objOfParts]
+  rw [pathInit_ok _ (by intro x hx; simp only [List.mem_map] at hx; obtain ⟨g, _, rfl⟩ := hx
+                        exact partOfGroup_ok g)]
+  simp only [Option.map_some, List.flatMap_map, partOfGroup_steps]
+
+/-- `eval(repr(p))` of a Path rooted at T gives back an object with root T and the
+    (normalised) steps of `p`: a Path, or — for a path without plain segments — a T
+    expression (reading 6 of DESIGN.md) -/
+theorem parseObj_fmtPath (steps : List (Step L)) (hv : validP steps = true) :
+    ∃ y, parseObj (fmtPath F1 steps) = some y ∧ y.root = "T" ∧ y.steps = normSteps steps := by
+  rw [validP_iff] at hv
+  unfold fmtPath
+  rw [assemblePath_eq]
+  have hflat := groupSteps_flatten Step.isSeg steps
+  have hspec := groupSteps_spec Step.isSeg steps
+  have hmem := mem_group_mem Step.isSeg steps
+  generalize groupSteps Step.isSeg steps = gs at hflat hspec hmem
+  -- what every group is read back as
+  have hpiece : ∀ g ∈ gs, parsePart (pieceToks F1 g) = some (partOfGroup g) := by
+    intro g hg
+    cases g with
+    | inl l =>
+      have hsp := hspec _ hg
+      simp only at hsp
+      have hvl : validT l = true := by
+        rw [validT_iff]
+        intro s hs
+        exact ⟨hsp.2 s hs, hv s (hmem _ hg s (by simpa [unGroup] using hs))⟩
+      simp only [pieceToks, parsePart, parseSteps_fmt l hvl, Option.map_some, partOfGroup]
+    | inr s =>
+      have hsp := hspec _ hg
+      simp only at hsp
+      cases s with
+      | seg v => simp only [pieceToks, partOfGroup]; rw [fmtStep]; rfl
+      | _ => simp [Step.isSeg] at hsp
+  have hsteps : normSteps steps = gs.flatMap (fun g => normSteps (unGroup g)) := by
+    rw [← hflat]; simp [normSteps, List.map_flatMap]
+  match gs, hflat, hspec, hmem, hpiece, hsteps with
+  | [.inl g], _, _, _, hpiece, hsteps =>
+    have hparse := hpiece (.inl g) (by simp)
+    simp only [pieceToks, parsePart, partOfGroup] at hparse
+    refine ⟨.tobj "T" (normSteps g), ?_, rfl, ?_⟩
+    · simp only
+      rw [parseObj]
+      cases hps : parseSteps (g.flatMap (fmtStep F1)) with
+      | none => rw [hps] at hparse; simp at hparse
+      | some st =>
+        rw [hps] at hparse
+        simp only [Option.map_some, Option.some.injEq, Part.texpr.injEq, true_and] at hparse
+        rw [hparse]; rfl
+    · simp [hsteps, unGroup, Obj.steps]
+  | [], _, _, _, _, hsteps =>
+    refine ⟨.pobj "T" [], ?_, rfl, ?_⟩
+    · simp [joinSep, parseObj]
+    · simp [hsteps, Obj.steps]
+  | [.inr x], _, _, _, hpiece, hsteps =>
+    exact ⟨_, parseObj_path [.inr x] (by simp) hpiece, rfl, by simp [hsteps, Obj.steps]⟩
+  | a :: b :: r, _, _, _, hpiece, hsteps =>
+    refine ⟨.pobj "T" ((a :: b :: r).flatMap (fun g => normSteps (unGroup g))), ?_, rfl,
+      by simp only [hsteps, Obj.steps]⟩
+    cases a <;> exact parseObj_path _ (by simp) hpiece
+
+/-! ### the reconstructed object has the same repr -/
+
+theorem normStep_isSeg (s : Step L) : (normStep s).isSeg = s.isSeg := by
+  cases s <;> rw [normStep] <;> rfl
+
+theorem groupToks_liftG_congr (h : Step L × List (Tok L) → Step L × List (Tok L))
+    (htok : ∀ x, (h x).2 = x.2) (g : List (Step L × List (Tok L)) ⊕ (Step L × List (Tok L))) :
+    groupToks (liftG h g) = groupToks g := by
+  cases g with
+  | inl l => simp [groupToks, liftG, List.flatMap_map, htok]
+  | inr x => simp [groupToks, liftG, htok]
+
+theorem assemblePath_congr (h : Step L × List (Tok L) → Step L × List (Tok L))
+    (hseg : ∀ x, (h x).1.isSeg = x.1.isSeg) (htok : ∀ x, (h x).2 = x.2)
+    (xs : List (Step L × List (Tok L))) : assemblePath (xs.map h) = assemblePath xs := by
+  unfold assemblePath
+  rw [groupSteps_map (fun x => x.1.isSeg) h (fun x => x.1.isSeg) hseg]
+  have hmm : ∀ (gs : List (List (Step L × List (Tok L)) ⊕ (Step L × List (Tok L)))),
+      (gs.map (liftG h)).map groupToks = gs.map groupToks := by
+    intro gs
+    rw [List.map_map]
+    apply List.map_congr_left
+    intro g _
+    exact groupToks_liftG_congr h htok g
+  generalize groupSteps (fun x => x.1.isSeg) xs = gs
+  match gs with
+  | [] => rfl
+  | [.inl g] => simp [liftG, List.flatMap_map, htok]
+  | [.inr x] => simp [liftG, groupToks, htok]
+  | a :: b :: r =>
+    have := hmm (a :: b :: r)
+    cases a <;> (simp only [List.map_cons, liftG] at this ⊢; rw [this])
+
+theorem assembleT_congr (root : String) (h : Step L × List (Tok L) → Step L × List (Tok L))
+    (hseg : ∀ x, (h x).1.isSeg = x.1.isSeg) (htok : ∀ x, (h x).2 = x.2)
+    (xs : List (Step L × List (Tok L))) : assembleT root (xs.map h) = assembleT root xs := by
+  unfold assembleT
+  rw [assemblePath_congr h hseg htok]
+  simp only [List.any_map, Function.comp_def, hseg, List.flatMap_map, htok]
+
+theorem sortKw_idem {α : Type} (l : List (String × α)) : sortKw (sortKw l) = sortKw l := by
+  unfold sortKw
+  apply List.mergeSort_of_pairwise
+  apply List.pairwise_mergeSort
+  · intro a b c hab hbc
+    simp only [decide_eq_true_eq] at *
+    exact String.le_trans hab hbc
+  · intro a b
+    simp only [Bool.or_eq_true, decide_eq_true_eq]
+    exact String.le_total a.1 b.1
+
+theorem fmtOpt_norm (F : FmtFacts) (a : Option (Arg L))
+    (h : ∀ x, a = some x → fmtArg F (normArg x) = fmtArg F x) :
+    fmtOpt F (a.map normArg) = fmtOpt F a := by
+  cases a with
+  | none => rfl
+  | some x => simp only [Option.map_some, fmtOpt, h x rfl]
+
+mutual
+  theorem fmtArg_norm (F : FmtFacts) : ∀ (a : Arg L), fmtArg F (normArg a) = fmtArg F a
+    | .lit v => by rw [normArg]
+    | .t root steps => by
+      have hs : ∀ s ∈ steps, fmtStep F (normStep s) = fmtStep F s := fun s _ => fmtStep_norm F s
+      rw [normArg, fmtArg, fmtArg, List.map_map]
+      have : steps.map ((fun s => (s, fmtStep F s)) ∘ fun s => normStep s) =
+          (steps.map (fun s => (s, fmtStep F s))).map
+            (fun (x : Step L × List (Tok L)) => (normStep x.1, x.2)) := by
+        rw [List.map_map]
+        apply List.map_congr_left
+        intro s hs'
+        simp only [Function.comp, hs s hs']
+      rw [this]
+      exact assembleT_congr root (fun (x : Step L × List (Tok L)) => (normStep x.1, x.2))
+        (fun x => normStep_isSeg x.1) (fun _ => rfl) _
+  termination_by a => sizeOf a
+  decreasing_by all_goals c18_dec
+
+  theorem fmtItem_norm (F : FmtFacts) : ∀ (i : Item L), fmtItem F (normItem i) = fmtItem F i
+    | .one a => by rw [normItem, fmtItem, fmtItem, fmtArg_norm F a]
+    | .slice a b c => by
+      have ha := fmtOpt_norm F a (fun x _ => fmtArg_norm F x)
+      have hb := fmtOpt_norm F b (fun x _ => fmtArg_norm F x)
+      have hc : ∀ x, c = some x → fmtArg F (normArg x) = fmtArg F x := fun x _ => fmtArg_norm F x
+      rw [normItem_slice, fmtItem_slice, fmtItem_slice, ha, hb]
+      cases c with
+      | none => rfl
+      | some x => simp only [Option.map_some, hc x rfl]
+  termination_by i => sizeOf i
+  decreasing_by
+    all_goals simp_wf
+    all_goals (try subst_vars)
+    all_goals (first | omega | (simp <;> omega))
+
+  theorem fmtStep_norm (F : FmtFacts) : ∀ (s : Step L), fmtStep F (normStep s) = fmtStep F s
+    | .attr n => by rw [normStep]
+    | .seg v => by rw [normStep]
+    | .star => by rw [normStep]
+    | .starstar => by rw [normStep]
+    | .item i => by rw [normStep, fmtStep, fmtStep, fmtItem_norm F i]
+    | .items is => by
+      have hi : ∀ i ∈ is, fmtItem F (normItem i) = fmtItem F i := fun i _ => fmtItem_norm F i
+      rw [normStep, fmtStep, fmtStep, List.map_map]
+      have : is.map ((fun i => fmtItem F i) ∘ fun i => normItem i) = is.map (fun i => fmtItem F i) :=
+        List.map_congr_left (fun i hii => hi i hii)
+      rw [this]
+      simp only [List.isEmpty_map, List.length_map]
+    | .call args kwargs => by
+      have ha : ∀ a ∈ args, fmtArg F (normArg a) = fmtArg F a := fun a _ => fmtArg_norm F a
+      have hk : ∀ p ∈ kwargs, fmtArg F (normArg p.2) = fmtArg F p.2 := fun p _ => fmtArg_norm F p.2
+      rw [normStep, fmtStep, fmtStep, List.map_map]
+      have h1 : args.map ((fun a => fmtArg F a) ∘ fun a => normArg a) = args.map (fun a => fmtArg F a) :=
+        List.map_congr_left (fun a haa => ha a haa)
+      have h2 : sortKw ((sortKw (kwargs.map (fun p => (p.1, normArg p.2)))).map
+          (fun p => (p.1, fmtArg F p.2))) = sortKw (kwargs.map (fun p => (p.1, fmtArg F p.2))) := by
+        rw [← sortKw_map_snd, sortKw_idem, List.map_map]
+        congr 1
+        apply List.map_congr_left
+        intro p hp
+        simp only [Function.comp, hk p hp]
+      rw [h1, h2]
+  termination_by s => sizeOf s
+  decreasing_by all_goals c18_dec
+end
+
+theorem fmtSteps_norm (F : FmtFacts) (steps : List (Step L)) :
+    fmtSteps F (normSteps steps) =
+      (fmtSteps F steps).map (fun (x : Step L × List (Tok L)) => (normStep x.1, x.2)) := by
+  simp only [fmtSteps, normSteps, List.map_map]
+  apply List.map_congr_left
+  intro s _
+  simp only [Function.comp, fmtStep_norm F s]
+
+theorem fmtT_norm (F : FmtFacts) (root : String) (steps : List (Step L)) :
+    fmtT F root (normSteps steps) = fmtT F root steps := by
+  unfold fmtT
+  rw [fmtSteps_norm]
+  exact assembleT_congr root _ (fun x => normStep_isSeg x.1) (fun _ => rfl) _
+
+theorem fmtPath_norm (F : FmtFacts) (steps : List (Step L)) :
+    fmtPath F (normSteps steps) = fmtPath F steps := by
+  unfold fmtPath
+  rw [fmtSteps_norm]
+  exact assemblePath_congr _ (fun x => normStep_isSeg x.1) (fun _ => rfl) _
 
 end roundtrip
 
